@@ -186,11 +186,11 @@ func isFrame(w []byte, typ uint8, n int) bool {
 	return verifAnd(ok, verifImplies(verifAnd(k >= 0, k < 16), verifAt(w, k) == 0xFF))
 }
 
-func isKeepalive(w []byte) bool { return isFrame(w, keepAliveMessageType, 0) }
+func isKeepalive(w []byte) bool { return isFrame(w, verifMsgKeepalive, 0) }
 
 // isNotification: w is one NOTIFICATION frame with the given code/subcode and dataLen data bytes.
 func isNotification(w []byte, code, sub uint8, dataLen int) bool {
-	return verifAnd(isFrame(w, notificationMessageType, 2+dataLen), verifAnd(verifAt(w, 19) == code, verifAt(w, 20) == sub))
+	return verifAnd(isFrame(w, verifMsgNotification, 2+dataLen), verifAnd(verifAt(w, 19) == code, verifAt(w, 20) == sub))
 }
 
 func mkFrame(typ uint8, body []byte) []byte {
@@ -379,7 +379,7 @@ func fsmInOpenSent(p *peer, conn net.Conn) *fsm {
 func fsmNegotiated(p *peer, conn net.Conn, remoteHold uint16, remoteID uint32) *fsm {
 	c := conn.(*symConn)
 	body := mkOpenBody(p.config.RemoteAS, remoteHold, remoteID)
-	hdr := mkFrame(openMessageType, nil)
+	hdr := mkFrame(verifMsgOpen, nil)
 	n := 19 + len(body)
 	hdr[16], hdr[17] = byte(n>>8), byte(n)
 	pre := [][]byte{hdr, body}
